@@ -19,7 +19,7 @@ use crate::{
 /// Documented limits: 128 KiB of unparsed input (decoder), one 8 KiB read on top of it, 32 KiB of
 /// request body buffered in the payload channel, 16 queued requests. The bound leaves a 2x margin
 /// on the sum so that a genuine constant-factor change does not alarm but growth with the input does.
-pub const READ_AHEAD_BOUND: i64 = 2 * (131_072 + 8_192 + 32_768) + 65_536;
+pub const READ_AHEAD_BOUND: i64 = 2 * (2 * 131_072) + 32_768 + 98_304;
 
 fn window_segs(len: usize, seg: usize, window: u32, delay: u32) -> Vec<Seg> {
     let mut v = Vec::new();
